@@ -304,6 +304,10 @@ theorem hofFilter_sim (c : ICtx) (a : Nat) : ∀ (xs : Seq) (D : Env) (acc : Seq
     | [.fn _] => simp only [SM.throw_bind]; exact Sim.thr _ _
     | [.dec _] => simp only [SM.throw_bind]; exact Sim.thr _ _
     | [.dbl _] => simp only [SM.throw_bind]; exact Sim.thr _ _
+    | [.str _] => simp only [SM.throw_bind]; exact Sim.thr _ _
+    | [.nan] => simp only [SM.throw_bind]; exact Sim.thr _ _
+    | [.inf _] => simp only [SM.throw_bind]; exact Sim.thr _ _
+    | [.negz] => simp only [SM.throw_bind]; exact Sim.thr _ _
     | _ :: _ :: _ => simp only [SM.throw_bind]; exact Sim.thr _ _
 
 theorem hofFoldLeft_sim (c : ICtx) (a : Nat) : ∀ (xs : Seq) (D : Env) (res : Seq),
@@ -352,9 +356,9 @@ theorem hofPairs_sim (c : ICtx) (a : Nat) : ∀ (xs ys : Seq) (D : Env) (acc : S
     have := hofPairs_sim c a xs ys r.2 (acc ++ r.1)
     simpa only [List.append_assoc] using this
 
-theorem hofKeys_sim (c : ICtx) (a : Nat) : ∀ (xs : Seq) (D : Env) (acc : List (Item × List Int)),
-    Sim Prod.fst (hofKeys cfg ev c a D acc xs)
-      (specKeys (specCall sev) a xs >>= fun ks => pure (acc ++ ks))
+theorem hofKeys_sim (ci : Bool) (c : ICtx) (a : Nat) : ∀ (xs : Seq) (D : Env) (acc : List (Item × List Int)),
+    Sim Prod.fst (hofKeys cfg ev ci c a D acc xs)
+      (specKeys (specCall sev) ci a xs >>= fun ks => pure (acc ++ ks))
   | [], D, acc => by
     simp only [hofKeys, specKeys, pure_bind, List.append_nil]
     exact Sim.ret _ _ _ rfl
@@ -364,7 +368,7 @@ theorem hofKeys_sim (c : ICtx) (a : Nat) : ∀ (xs : Seq) (D : Env) (acc : List 
     intro r
     apply Sim.bnd (p := id) (Sim.lift _)
     intro k
-    have := hofKeys_sim c a xs r.2 (acc ++ [(x, k)])
+    have := hofKeys_sim ci c a xs r.2 (acc ++ [(x, k)])
     simpa only [List.append_assoc, List.singleton_append, id] using this
 
 /-! ### one layer -/
@@ -395,6 +399,10 @@ theorem step_sim (e : Expr) (c : ICtx) (D : Env) :
   | lit n => exact Sim.ret _ _ _ rfl
   | dlit n => exact Sim.ret _ _ _ rfl
   | elit n => exact Sim.ret _ _ _ rfl
+  | slit cs => exact Sim.ret _ _ _ rfl
+  | nanlit => exact Sim.ret _ _ _ rfl
+  | inflit p => exact Sim.ret _ _ _ rfl
+  | negzlit => exact Sim.ret _ _ _ rfl
   | inst t e =>
     simp only [step, specStep]
     apply Sim.bnd (hev e c D); intro v
@@ -557,7 +565,7 @@ theorem step_sim (e : Expr) (c : ICtx) (D : Env) :
       simpa only [List.nil_append, bind_pure] using this
     · simp only [if_true]
       exact Sim.ret _ _ _ rfl
-  | sortK s f =>
+  | sortK ci s f =>
     simp only [step, specStep]
     apply Sim.bnd (funArgCheck_sim ev sev hev c D f 1); intro fa
     apply Sim.bnd (hev s c fa.2); intro xs
@@ -566,7 +574,7 @@ theorem step_sim (e : Expr) (c : ICtx) (D : Env) :
     · simp only [h, if_true]
       exact Sim.ret _ _ _ rfl
     · simp only [h, if_false]
-      have := hofKeys_sim cfg ev sev hev c fa.1 xs.1 xs.2 []
+      have := hofKeys_sim cfg ev sev hev ci c fa.1 xs.1 xs.2 []
       simp only [List.nil_append, bind_pure] at this
       apply Sim.bnd this; intro ks
       cases keysUniform (ks.1.map (·.2))
